@@ -14,3 +14,41 @@ def pep701_fstring(v):
     w = v.get("witness")
     src = w[1] if isinstance(w, (list, tuple)) and len(w) == 2 else ""
     return ("f'{''}'" in src or "f'{a\n}'" in src or 'f"{""}"' in src) and "strings and comments" in (v.get("clause") or "")
+
+
+def _c06(v):
+    w = v.get("witness")
+    return w if isinstance(w, (list, tuple)) and len(w) == 3 else None
+
+
+def c06_invalid_target_signature(v):
+    """C06 #26: the requested change itself yields an invalid parameter list (a default before a non-default) and is emitted instead of refused:
+    adder/reorderer/default-inliner requests only -- never `normalize` or `remove`, which always describe a valid target."""
+    w = _c06(v)
+    if not w or w[2] not in ("add0_default", "add_end_value", "swap01", "inline_default1"):
+        return False
+    res = ((v.get("observed") or {}).get("result") or "")
+    first = res.split("\n")[0]
+    try:
+        compile(first + "\n    pass\n", "d", "exec")
+        return False
+    except SyntaxError:
+        return "does not parse" in (v.get("why") or "")
+
+
+def c06_double_star_call(v):
+    """C06 #22: a call with **mapping makes _FunctionCallParser.get_parameters fail a bare assert."""
+    w = _c06(v)
+    return bool(w) and "**{" in w[1] and (v.get("observed") or {}).get("exception") == "AssertionError"
+
+
+def c06_starred_call(v):
+    """C06 #10: starred positional call arguments (*[1, 2]) are treated as ordinary positionals."""
+    w = _c06(v)
+    return bool(w) and "*[" in w[1] and "**{" not in w[1]
+
+
+def c06_markers_or_vararg_defaults(v):
+    """C06 #10: the definition parser drops the keyword-only / positional-only markers and pairs defaults after appending *args."""
+    w = _c06(v)
+    return bool(w) and ("*, " in w[0] or "/" in w[0] or ("*args" in w[0] and "=" in w[0]))
